@@ -107,10 +107,79 @@ def call_site_links(run):
         run.oblig("link:MatrixProduct._update_ms:truncated_bond", "MatrixProduct._update_ms", "A(pyvc-structural)", "undecided", detail=repr(e))
 
 
+def replay_compress_sweep(cex, locals_, ob):
+    """native replay of a counter-model of the whole-sweep contract: a random chain with the counter-model's length and direction is compressed with the
+    counter-model's limits (list / integer / configured max_dims); every interior bond must obey its own limit and the sweep must end switched"""
+    from vk.specs import chain as S
+    from renormalizer.utils import CompressConfig, CompressCriteria
+    me = cex.get("self") or {}
+    n, to_right = int(me.get("site_num", 0)), bool(me.get("to_right", True))
+    if not (2 <= n <= 9):
+        return False, f"site_num={n} outside the replay range 2..9"
+    model, sectors = S.model_zoo("spinqn", n)
+    a = S.random_mps(model, sectors[len(sectors) // 2], 6, np.random.default_rng(5))
+    if a is None:
+        return False, "no state"
+    a.canonicalise().canonicalise()
+    if a.to_right != to_right:
+        a.canonicalise()
+    before = [int(x) for x in a.bond_dims]
+    t = cex.get("temp_m_trunc")
+    cfg = (me.get("compress_config") or {})
+    how = ""
+    try:
+        if isinstance(t, list):
+            lim = [max(1, int(x)) if isinstance(x, int) else 1 for x in (t + [1] * (n + 1))[: n + 1]]
+            a.compress_config = CompressConfig(CompressCriteria.fixed, max_bonddim=10 ** 4)
+            a.compress(temp_m_trunc=list(lim)); how = f"compress(temp_m_trunc={lim})"
+        elif isinstance(t, int):
+            lim = [max(1, t)] * (n + 1)
+            a.compress_config = CompressConfig(CompressCriteria.fixed, max_bonddim=10 ** 4)
+            a.compress(temp_m_trunc=max(1, t)); how = f"compress(temp_m_trunc={max(1, t)})"
+        else:
+            md = cfg.get("max_dims")
+            lim = [max(1, int(x)) if isinstance(x, int) else 1 for x in ((md if isinstance(md, list) else []) + [1] * (n + 1))[: n + 1]]
+            a.compress_config = CompressConfig(CompressCriteria.fixed, max_bonddim=10 ** 4)
+            a.compress_config.max_dims = np.array(lim, dtype=int)
+            a.compress(); how = f"compress() with compress_config.max_dims={lim}, criteria fixed"
+    except Exception as e:
+        return True, {"site_num": n, "to_right": to_right, "raised": repr(e), "how": how}
+    after = [int(x) for x in a.bond_dims]
+    bad = [b for b in range(1, n) if after[b] > lim[b]]
+    wrong_end = (a.to_right == to_right) or a.qnidx != (n - 1 if to_right else 0)
+    return bool(bad) or wrong_end, {"site_num": n, "to_right": to_right, "bond_dims_before": before, "limits": lim, "bond_dims_after": after,
+                                    "bonds_over_their_limit": bad, "ended_switched": not wrong_end,
+                                    "how": "vk.specs.chain.model_zoo('spinqn', n), random_mps(seed 5), canonicalised into the counter-model's direction, " + how}
+
+
+def prove_compress_sweep(run):
+    """MatrixProduct.compress on the shape abstraction, whole function re-extracted from the current source: every interior bond is cut exactly once and
+    obeys its own limit, for every chain length, both sweep directions and the three ways of giving limits"""
+    from contracts import mp as M
+    from vk.pyvc import engine as E
+    from vk.pyvc import run as R
+    from vk.pyvc.slice import whole_function, SliceError
+    try:
+        fn = R.index().find(M.REL, "MatrixProduct.compress")
+        sl = whole_function(fn, "compress__sweep", M.COMPRESS_SUBST, M.COMPRESS_PARAMS, must_hit=M.COMPRESS_MUST_HIT)
+    except (E.VCError, SliceError, ValueError, StopIteration) as e:
+        run.oblig("extract:MatrixProduct.compress", "MatrixProduct.compress", "A(pyvc)", "undecided", detail=f"function could not be extracted (stale contract): {e}")
+        return
+    run.extra.setdefault("pyvc_slices", {})["MatrixProduct.compress"] = {
+        "source": M.REL, "description": "the whole body of MatrixProduct.compress with " + ", ".join(f"`{a}` -> `{b}`" for a, b in M.COMPRESS_SUBST.items())
+                                        + " (docstring dropped); callees _update_ms and compute_m_trunc by contract, iter_idx_list and _switch_direction inlined",
+        "extracted_text": ast.unparse(sl)}
+    for c in (M.compress_list, M.compress_int, M.compress_cfg):
+        R.verify_node(run, M.REL, c, sl, contracts=M.CALLEES_COMPRESS, fingerprint=M.FINGERPRINT_COMPRESS, replay=replay_compress_sweep)
+    run.trusted += ["assumed contract of MatrixProduct._update_ms on the shape abstraction (the cut bond gets min(m_trunc, len(sigma)) entries, the centre moves one "
+                    "site, nothing else changes): its bookkeeping is decided by Engine S in kernel-stub mode (C04/C09 per-bond probes) and by the structural link above"]
+
+
 def prove(run):
     lemma_cnt_bounds(run)
     verify(run, K.REL, K.fixed, replay=replay_factory("_fixed_m_trunc", K.fixed), fingerprint={})
     verify(run, K.REL, K.threshold, replay=replay_factory("_threshold_m_trunc", K.threshold), fingerprint={})
     verify(run, K.REL, K.compute, contracts=K.CALLEES, replay=replay_factory("compute_m_trunc", K.compute), fingerprint={})
     call_site_links(run)
+    prove_compress_sweep(run)
     run.trusted += ["assumed contract: scipy.linalg.norm(sigma) >= 0", "np.sum(boolean array) = recursive count cnt (definition)"]
